@@ -186,6 +186,19 @@ pub fn run_parent(info: &PropInfo, tier: Tier, seed: u64) -> i32 {
     let t0 = Instant::now();
     let jobs: u32 = std::env::var("VERIF_JOBS").ok().and_then(|s| s.parse().ok()).unwrap_or(16);
     let shards = tier.pick(info.shards.0, info.shards.1).min(jobs.max(1));
+    // remove scratch directories left behind by killed runs (owner pid no longer alive)
+    if let Ok(rd) = std::fs::read_dir(crate::util::scratch_base()) {
+        for e in rd.flatten() {
+            let name = e.file_name().to_string_lossy().to_string();
+            if let Some(rest) = name.strip_prefix("txtpp-verif.") {
+                if let Some(pid) = rest.split('.').next().and_then(|p| p.parse::<i32>().ok()) {
+                    if !std::path::Path::new(&format!("/proc/{pid}")).exists() {
+                        let _ = std::fs::remove_dir_all(e.path());
+                    }
+                }
+            }
+        }
+    }
     let exe = std::env::current_exe().expect("current exe");
     let tmp = crate::util::scratch_base().join(format!("txtpp-verif.{}.parent", std::process::id()));
     let _ = std::fs::remove_dir_all(&tmp);
